@@ -146,7 +146,7 @@ Inductive case15 :=
         (viol : bool).
 
 Definition stmt_after (A B : tref) (s : stmt) : string * list string :=
-  match rep_stmt A B s with
+  match rep_stmt tcfg A B s with
   | Ok s' => (dump_stmt s', star_names s')
   | Err e => ("!" ++ e, [])
   end.
@@ -154,32 +154,34 @@ Definition stmt_after (A B : tref) (s : stmt) : string * list string :=
 Definition check15 (c : case15) : bool :=
   match c with
   | CTerm A B w bs bn as_ an viol =>
-      let w' := rep_wt A B w in
+      let w' := rep_wt tcfg A B w in
       String.eqb (text_of (render_wt str_ctx w)) bs && String.eqb (text_of (render_wt ns_ctx w)) bn
       && String.eqb (text_of (render_wt str_ctx w')) as_ && String.eqb (text_of (render_wt ns_ctx w')) an
       (* the proved fragment never contains an object on which the harness saw the property fail *)
-      && negb (cov_wt A w && viol)
+      && negb (cov_wt tcfg A w && viol)
   | CStmt A B s b sb a sa viol =>
       let r := stmt_after A B s in
       String.eqb (dump_stmt s) b && same_set (star_names s) sb
       && String.eqb (fst r) a && same_set (snd r) sa
-      && negb (cov_stmt A s && viol)
+      && negb (cov_stmt tcfg A s && viol)
   end.
 
 Definition show15 (c : case15) : string :=
   match c with
   | CTerm A B w _ _ _ _ _ =>
-      let w' := rep_wt A B w in
+      let w' := rep_wt tcfg A B w in
       text_of (render_wt str_ctx w) ++ " | " ++ text_of (render_wt ns_ctx w) ++ " => " ++ text_of (render_wt str_ctx w')
-      ++ " | " ++ text_of (render_wt ns_ctx w') ++ " covered=" ++ (if cov_wt A w then "1" else "0")
+      ++ " | " ++ text_of (render_wt ns_ctx w') ++ " covered=" ++ (if cov_wt tcfg A w then "1" else "0")
   | CStmt A B s _ _ _ _ _ =>
       dump_stmt s ++ " STAR" ++ semi (star_names s) ++ " => " ++ fst (stmt_after A B s) ++ " STAR" ++ semi (snd (stmt_after A B s))
-      ++ " covered=" ++ (if cov_stmt A s then "1" else "0")
+      ++ " covered=" ++ (if cov_stmt tcfg A s then "1" else "0")
   end.
 
 (* ------------------------------------------------------------------------------------------ *)
 (* one witness object per (class, child slot): table a sits in exactly that slot              *)
 (* ------------------------------------------------------------------------------------------ *)
+Definition vis : ctor -> slot -> bool := cvis tcfg.
+
 Inductive obj15 := OW (w : wterm) | OS (s : stmt).
 
 Definition show_stmt (s : stmt) : string := dump_stmt s ++ " STAR[" ++ semi (star_names s) ++ "]".
@@ -187,8 +189,8 @@ Definition show_obj (o : obj15) : string :=
   match o with OW w => text_of (render_wt ns_ctx w) | OS s => show_stmt s end.
 Definition rep_show (A B : tref) (o : obj15) : string :=
   match o with
-  | OW w => text_of (render_wt ns_ctx (rep_wt A B w))
-  | OS s => match rep_stmt A B s with Ok s' => show_stmt s' | Err e => "!" ++ e end
+  | OW w => text_of (render_wt ns_ctx (rep_wt tcfg A B w))
+  | OS s => match rep_stmt tcfg A B s with Ok s' => show_stmt s' | Err e => "!" ++ e end
   end.
 Definition subst_show (A B : tref) (o : obj15) : string :=
   match o with OW w => text_of (render_wt ns_ctx (subst_wt A B w)) | OS s => show_stmt (subst_stmt A B s) end.
@@ -232,7 +234,7 @@ Definition stmt_witness (ch : bool) (sl : slot) : option stmt :=
   | S__havings => mk F None None [] SE [] [] None None [] (Some (WT (ca "x"))) [] [] [] [] []
   | S__orderbys => mk F None None [] SE [] [] None None [] None [(WT (fa "x"), Some "DESC")] [] [] [] []
   | S__joins => mk F None None [] SE [] [] None None [] None [] [JOn "" (SrcTable wa) (WT (cc "k"))] [] [] []
-  | S__updates => mk F None None [] SE [] [] None None [] None [] [] [(TField "u" None None, WT (fa "x"))] [] []
+  | S__updates => mk F None None [] SE [] [] None None [] None [] [] [(fa "u", WT one)] [] []
   | S__select_star_tables => mk F None None [] SE [] [] None None [] None [] [] [] [wa] []
   | S__limit_by => if ch then mk F None None [] SE [] [] None None [] None [] [] [] [] [WT (fa "x")] else None
   | _ => None
@@ -246,6 +248,9 @@ Definition witness_for (k : ctor) (sl : slot) : option obj15 :=
   match k, sl with
   | KField, S_table => W (WT (fa "x"))
   | KStar, S_table => W (WT (TStar (Some wa)))
+  | KValue, S_value =>      (* the value of a SET pair: QueryBuilder.set() wraps it in a ValueWrapper *)
+      Some (OS (with_ (stmt0 false) [SrcTable wc] None None [] [WT (fc "y")] [] [] None None [] None [] []
+                      [(TField "u" None None, WT (fa "x"))] [] []))
   | KNeg, S_term => W (WT (TNeg (fa "x")))
   | KArith, S_left => W (WT (TArith OAdd (fa "x") (fc "n") None))
   | KArith, S_right => W (WT (TArith OAdd (fc "n") (fa "x") None))
@@ -309,7 +314,11 @@ Definition witness_differs (p : ctor * slot) : bool :=
   end.
 (* the witness of a visited slot: same rendering -- except where visiting means calling a method that does not exist *)
 Definition raising_pair (p : ctor * slot) : bool :=
-  match p with (KQuery, S__with) | (KClickHouse, S__with) | (KJoin, S_item) => true | _ => false end.
+  match p with
+  | (KQuery, S__with) | (KClickHouse, S__with) => c_with_by_call tcfg && negb (c_with_ok tcfg)
+  | (KJoin, S_item) => c_join_by_call tcfg && negb (c_item_ok tcfg)
+  | _ => false
+  end.
 Definition witness_agrees (p : ctor * slot) : bool :=
   match witness_for (fst p) (snd p) with
   | Some o => if raising_pair p then String.eqb (rep_show wa wb o) "!TypeError"
@@ -324,6 +333,10 @@ Definition expected_visited : list (ctor * slot) :=
    (KNotNull, S_term); (KNot, S_term); (KCase, S__cases_crit); (KCase, S__cases_term); (KCase, S__else); (KFunc, S_args);
    (KTuple, S_values); (KArray, S_values); (KNested, S_left); (KNested, S_right); (KNested, S_nested); (KAgg, S_args);
    (KAnalytic, S_args);
+   (* visited since the fix commits b9f327b, 464bef2, 25d2a2d, 11d7c56 *)
+   (KNeg, S_term); (KIn, S_container); (KBetween, S_start); (KBetween, S_end); (KPeriod, S_term); (KPeriod, S_start);
+   (KPeriod, S_end); (KAll, S_term); (KAgg, S__filters); (KAnalytic, S__filters); (KAnalytic, S__partition);
+   (KAnalytic, S__orderbys); (KExtract, S_field); (KExists, S_container); (KQuery, S__updates); (KClickHouse, S__updates);
    (KQuery, S__from); (KQuery, S__insert_table); (KQuery, S__update_table); (KQuery, S__with); (KQuery, S__selects);
    (KQuery, S__columns); (KQuery, S__values); (KQuery, S__wheres); (KQuery, S__prewheres); (KQuery, S__groupbys);
    (KQuery, S__havings); (KQuery, S__orderbys); (KQuery, S__joins); (KQuery, S__select_star_tables);
